@@ -4,8 +4,8 @@ import (
 	"fmt"
 	"net/url"
 
-	"verifharness/internal/gen"
-	"verifharness/internal/h"
+	"verifharness/pkg/gen"
+	"verifharness/pkg/h"
 )
 
 func init() { register("leid", "C08", runLeid) }
